@@ -192,8 +192,13 @@ def make_component(c, layout, variant):
     ns = {"__annotations__": {"shared": Shared}}
     if "g" in plain:
         ns["__annotations__"]["g"] = int        # an injected attribute (robot attribute '<component>_g'): a plain one
+    # (one marker object may be bound under several names: grab = release = will_reset_to(False))
+    markers = {}
     for a, d in resets.items():
-        (base_ns if a in inherited else ns)[a] = will_reset_to(d)
+        mk_ = markers.get(d) if layout.get("sharedmarker", {}).get(c) else None
+        if mk_ is None:
+            mk_ = markers[d] = will_reset_to(d)
+        (base_ns if a in inherited else ns)[a] = mk_
         if a in redeclared and a not in inherited:
             base_ns[a] = will_reset_to(d + 100)
     for a in shadowed:
@@ -305,8 +310,9 @@ def add_getter(ns, o, key, variant, ty="int", sann=False, inplace=False, base_ns
     if ty != "none":
         getter.__annotations__ = {"return": FB_ANN_STR[ty] if sann else FB_ANN[ty]}
     if variant % 2 == 0:
-        getter.__name__ = "get_" + key
-        ns[getter.__name__] = feedback(getter)
+        # (a getter made by a factory keeps the factory's function name; the key comes from the attribute it is bound to)
+        getter.__name__ = "get_" + key if (variant // 2) % 3 != 1 else "made_by_factory"
+        ns["get_" + key] = feedback(getter)
     else:
         # (with an explicit key the method's own name is free: it may be a private one)
         getter.__name__ = ("_read_" if variant % 4 == 3 else "read_") + key
@@ -380,7 +386,9 @@ def make_robot(layout, uid):
         return f
     base_ns = {"__annotations__": {c: classes[c] for c in comps[:nbase]}, "createObjects": createObjects,
                "control_loop_wait_time": layout["period"] / 1e6,
-               "use_teleop_in_autonomous": bool(layout["teleAuto"])}
+               "use_teleop_in_autonomous": bool(layout["teleAuto"]),
+               # how often a swallowed fault is reported to the driver station (0 = every time): never what is done
+               "error_report_interval": layout.get("eri", 0.5)}
     for name in ("autonomousInit", "teleopInit", "teleopPeriodic", "disabledInit", "disabledPeriodic",
                  "testInit", "testPeriodic", "robotPeriodic"):
         if name == "robotPeriodic" and not layout.get("rp", True):
@@ -645,6 +653,10 @@ def gen_layout(rng, uid):
         if rng.random() < 0.5:
             fbs.append({"o": c, "key": rng.choice(["k_%s", "widget_%s", "budget_left_%s"]) % c, "ty": rng.choice(FB_TYPES),
                         "sann": rng.random() < 0.35, "inplace": rng.random() < 0.4, "ovr": rng.random() < 0.25})
+            if rng.random() < 0.4:
+                # a second getter on the same owner, called after the first (getters run in name order)
+                fbs.append({"o": c, "key": "zz_%s" % c, "ty": rng.choice(FB_TYPES + ["none", "none"]),
+                            "sann": rng.random() < 0.35})
     sm = [c for c in comps if rng.random() < 0.25]
     for c in sm:
         has[c]["on_enable"] = has[c]["on_disable"] = True     # StateMachine has both
@@ -684,6 +696,8 @@ def gen_layout(rng, uid):
     if rng.random() < 0.4:
         fbs.append({"o": "robot", "key": rng.choice(["rk_%d", "target_%d"]) % uid, "ty": rng.choice(FB_TYPES),
                     "sann": rng.random() < 0.35})
+        if rng.random() < 0.4:
+            fbs.append({"o": "robot", "key": "zz_%d" % uid, "ty": rng.choice(FB_TYPES + ["none", "none"]), "sann": False})
     nm = rng.choice([0, 1, 1, 2])
     modes = ["m%d_%d" % (i, uid) for i in range(nm)]
     defmode = rng.choice(modes + ["none"]) if modes else "none"
@@ -692,7 +706,8 @@ def gen_layout(rng, uid):
             "period": rng.choice([20000, 20000, 5000, 15625]),
             "inherit": inherit, "redeclare": redeclare, "shadow": shadow, "sm": sm, "sameclass": sameclass,
             "initassign": initassign, "derive": derive, "derive_redecl": derive_redecl,
-            "rp": rng.random() < 0.7,
+            "rp": rng.random() < 0.7, "eri": rng.choice([0.5, 0.5, 0, 0.001, 3]),
+            "sharedmarker": {c: rng.random() < 0.3 for c in comps},
             "hookform": {c: {k: rng.choice(["method", "method", "static", "class", "attr"])
                              for k in ("setup", "on_enable", "on_disable")}
                          for c in comps if c not in sameclass and c not in sameclass.values()
